@@ -693,12 +693,15 @@ func (env *SpecEnv) ident(name string) SpecVal {
 			}
 		}
 		// a counting loop `for i := 0; i < n; i++`: the counter is the number of completed iterations
-		if a := countingLoopCell(fx.fn, env.loop); a != nil {
+		if a, from := countingLoopCellFrom(fx.fn, env.loop); a != nil {
 			if v, ok := env.st.cells[a]; ok {
-				return SpecVal{T: v}
+				if from == 0 {
+					return SpecVal{T: v}
+				}
+				return SpecVal{T: App("-", SInt, v, IntLit(from))}
 			}
 		}
-		specFail("iter: the current loop is neither a range-over-slice loop nor a counting loop from 0")
+		specFail("iter: the current loop is neither a range-over-slice loop nor a counting loop from a constant")
 	}
 	switch name {
 	case "MaxUint64":
@@ -1465,7 +1468,15 @@ func boundIn(term string, binders []string) bool {
 // countingLoopCell recognises `for i := 0; i < n; i++ { ... }` (i not address-taken, assigned nowhere else): the header
 // tests `i < n`, the only store to i inside the loop is i+1, the only store outside is the constant 0. Returns i's cell.
 func countingLoopCell(fn *ssa.Function, li *loopInfo) *ssa.Alloc {
+	a, _ := countingLoopCellFrom(fn, li)
+	return a
+}
+
+// countingLoopCellFrom is countingLoopCell for any constant start c >= 0 (`for i := c; i < n; i++`); it returns the cell
+// and c. The number of completed iterations is i - c.
+func countingLoopCellFrom(fn *ssa.Function, li *loopInfo) (*ssa.Alloc, int64) {
 	var cand *ssa.Alloc
+	var start int64
 	for _, in := range li.header.Instrs {
 		cmp, ok := in.(*ssa.BinOp)
 		if !ok || cmp.Op != token.LSS {
@@ -1480,42 +1491,43 @@ func countingLoopCell(fn *ssa.Function, li *loopInfo) *ssa.Alloc {
 		}
 	}
 	if cand == nil || cand.Referrers() == nil {
-		return nil
+		return nil, 0
 	}
 	inside, outside := 0, 0
 	for _, r := range *cand.Referrers() {
 		switch x := r.(type) {
 		case *ssa.Store:
 			if x.Addr != ssa.Value(cand) {
-				return nil
+				return nil, 0
 			}
 			if li.blocks[x.Block()] {
 				add, ok := x.Val.(*ssa.BinOp)
 				if !ok || add.Op != token.ADD {
-					return nil
+					return nil, 0
 				}
 				l, ok := add.X.(*ssa.UnOp)
 				if !ok || l.X != ssa.Value(cand) {
-					return nil
+					return nil, 0
 				}
 				if c, ok := add.Y.(*ssa.Const); !ok || c.Int64() != 1 {
-					return nil
+					return nil, 0
 				}
 				inside++
 			} else {
 				c, ok := x.Val.(*ssa.Const)
-				if !ok || c.Value == nil || c.Int64() != 0 {
-					return nil
+				if !ok || c.Value == nil || c.Int64() < 0 {
+					return nil, 0
 				}
+				start = c.Int64()
 				outside++
 			}
 		case *ssa.UnOp, *ssa.DebugRef:
 		default:
-			return nil
+			return nil, 0
 		}
 	}
 	if inside != 1 || outside != 1 {
-		return nil
+		return nil, 0
 	}
-	return cand
+	return cand, start
 }
